@@ -10,6 +10,7 @@ let run_job (job : Sx.t) : string =
   | "scan" -> Jfront.job_scan job
   | "pretty" -> Jfront.job_pretty job
   | "consts" -> Jconsts.job_consts job
+  | "sortnet" -> Jsort.job_sortnet job
   | "panicrec" -> Jpanic.job_panicrec job
   | "panicparse" -> Jpanic.job_panicparse job
   | "sizes" -> Jprog.job_sizes job
